@@ -104,6 +104,7 @@ class World:
         self.classes, self.source = progen.build_classes(spec, self)
         self.dag = build_dag(input_node=self.classes[spec['input']], output_node=self.classes[spec['output']])
         self.graph, self.index_of = progen.dump_graph(self.dag, spec)
+        progen.WORLD_INDEX['index_of'] = self.index_of
         self.loop = StepLoop()
         _LOOP_HOLDER['loop'] = self.loop
         install_lock_probe(_LOOP_HOLDER)
@@ -222,7 +223,7 @@ class World:
 
     async def abody(self, idx, inst, kw):
         r, inv, att = self._counters(idx)
-        self.obs.append(['body', r.rid, idx, inv, att, {k: progen.canon(v) for k, v in sorted(kw.items())}])
+        self.obs.append(['body', r.rid, idx, inv, att, {progen._key(k): progen.canon(v) for k, v in kw.items()}])
         out = self._outcome(idx, inst, kw, inv, att)
         g = Gate(r.rid, idx, inv, att, fut=self.loop.create_future(), outcome=out)
         self.gates.append(g)
@@ -234,7 +235,7 @@ class World:
 
     def sbody(self, idx, inst, kw):
         r, inv, att = self._counters(idx)
-        self.obs.append(['body', r.rid, idx, inv, att, {k: progen.canon(v) for k, v in sorted(kw.items())}])
+        self.obs.append(['body', r.rid, idx, inv, att, {progen._key(k): progen.canon(v) for k, v in kw.items()}])
         out = self._outcome(idx, inst, kw, inv, att)
         if self.pending_submit is not None:      # running inside a (virtual) executor
             self.last_sync_gate = Gate(r.rid, idx, inv, att, outcome=out)
@@ -243,7 +244,7 @@ class World:
         return out[1]
 
     def default(self, idx, kw):
-        self.obs.append(['default', CURRENT_RUN.get().rid, idx, {k: progen.canon(v) for k, v in sorted(kw.items())}])
+        self.obs.append(['default', CURRENT_RUN.get().rid, idx, {progen._key(k): progen.canon(v) for k, v in kw.items()}])
         return progen.prov(self.spec['nodes'][idx]['name'] + '.default', kw)
 
     # -- driving ---------------------------------------------------------------------------
